@@ -222,17 +222,17 @@ func (h *History) CheckC12(res *Result) []Violation {
 	}
 	eng := h.Case.Engine
 	if res.Wedged {
-		for _, c := range res.Ctl {
-			if c.Kind == "forcestop" {
-				vs := CheckWedge(res)
-				for i := range vs {
-					vs[i].Prop = "C12"
-					vs[i].Key = strings.Replace(vs[i].Key, "C11/wedge/", "C12/run-does-not-terminate/", 1)
-				}
-				return vs
-			}
+		// only a run that does not end although a force stop was ACCEPTED is this property's
+		// concern (a refused force stop leaves a pipeline whose plugins may hang legitimately)
+		if call == nil {
+			return nil
 		}
-		return nil
+		vs := CheckWedge(res)
+		for i := range vs {
+			vs[i].Prop = "C12"
+			vs[i].Key = strings.Replace(vs[i].Key, "C11/wedge/", "C12/run-does-not-terminate/", 1)
+		}
+		return vs
 	}
 	if call == nil {
 		return nil
@@ -243,6 +243,12 @@ func (h *History) CheckC12(res *Result) []Violation {
 	for i := call.CallIdx; i < len(h.Events); i++ {
 		e := h.Events[i]
 		if e.Kind != EvStatus {
+			continue
+		}
+		if strings.HasPrefix(e.Info, "Running") {
+			// The start-up's own status write racing the force stop (the status event is
+			// logged after the write returned, the in-memory status changes before). A
+			// restart after the terminal status is caught below.
 			continue
 		}
 		if strings.HasPrefix(e.Info, "Degraded") || strings.HasPrefix(e.Info, "UserStopped") || strings.HasPrefix(e.Info, "SystemStopped") ||
